@@ -10,6 +10,8 @@ import (
 
 	"github.com/consensys/gnark-crypto/ecc"
 	curve "github.com/consensys/gnark-crypto/ecc/bn254"
+	"github.com/consensys/gnark-crypto/ecc/bn254/fr"
+	"github.com/consensys/gnark-crypto/ecc/bn254/fr/pedersen"
 	"github.com/consensys/gnark/backend/groth16"
 	g16 "github.com/consensys/gnark/backend/groth16/bn254"
 	"github.com/consensys/gnark/backend/witness"
@@ -158,6 +160,49 @@ func runC01(args []string) int {
 			p2.Commitments[0], p2.Commitments[1] = p2.Commitments[1], p2.Commitments[0]
 			cls, msg = verify(p2, pub)
 			expect("commitments swapped", cls, msg, false)
+		}
+		// the Pedersen keys made by Setup must bind commitment i to basis i: a multiple of a basis element of
+		// commitment 0 moved into commitment 1 (sum unchanged), with the knowledge proofs an adversary can
+		// compute from the proving key, must be rejected by the batched knowledge-proof verification
+		if nc >= 2 && len(run.pk.CommitmentKeys[0].Basis) > 0 {
+			pks := run.pk.CommitmentKeys
+			poks := make([]curve.G1Affine, nc)
+			okLen := true
+			for j := 0; j < nc; j++ {
+				if len(po.CV[j]) != len(pks[j].BasisExpSigma) {
+					okLen = false
+					break
+				}
+				var acc curve.G1Jac
+				for i, v := range po.CV[j] {
+					var t curve.G1Affine
+					t.ScalarMultiplication(&pks[j].BasisExpSigma[i], v)
+					acc.AddMixed(&t)
+				}
+				poks[j].FromJacobian(&acc)
+			}
+			if okLen {
+				var ch fr.Element
+				ch.SetBigInt(rng.FieldElem(bnQ))
+				d := desc
+				d.Edit = "pedersen: honest per-commitment knowledge proofs"
+				rep.Eval(sp.name+"|pedersen-honest", true)
+				if err := pedersen.BatchVerifyMultiVk(run.vk.CommitmentKeys, po.proof.Commitments, poks, ch); err != nil {
+					rep.Fail("c01:pedersen-honest-rejected", "knowledge proofs computed from the proving key and the committed values are rejected: "+err.Error(), d)
+				} else {
+					cm := append([]curve.G1Affine{}, po.proof.Commitments...)
+					pk2 := append([]curve.G1Affine{}, poks...)
+					cm[0].Sub(&cm[0], &pks[0].Basis[0])
+					cm[1].Add(&cm[1], &pks[0].Basis[0])
+					pk2[0].Sub(&pk2[0], &pks[0].BasisExpSigma[0])
+					pk2[1].Add(&pk2[1], &pks[0].BasisExpSigma[0])
+					d.Edit = "pedersen: basis element of commitment 0 moved into commitment 1"
+					rep.Eval(sp.name+"|pedersen-migration", true)
+					if err := pedersen.BatchVerifyMultiVk(run.vk.CommitmentKeys, cm, pk2, ch); err == nil {
+						rep.Fail("c01:accepted:pedersen-migration", "the commitment keys accept a commitment containing a multiple of another commitment's basis (shared sigma): the knowledge proof does not bind commitment 1 to its own basis", d)
+					}
+				}
+			}
 		}
 		// a proof of another witness of the same circuit against this public input
 		full2, _ := frontend.NewWitness(sp.asg(si+5), bnQ)
